@@ -38,6 +38,7 @@ if ! (cd "$H" && go build $RACE -tags verif -modfile="$SCRATCH/go.mod" -overlay 
 fi
 
 ARGS=(-prop "$ID" -tier "$TIER" -seed "${VERIF_SEED:-1}" -verif "$VERIF" -scratch "$SCRATCH")
+if [ -n "${VERIF_OUTDIR:-}" ]; then mkdir -p "$VERIF_OUTDIR/evidence" "$VERIF_OUTDIR/replays"; ARGS+=(-outdir "$VERIF_OUTDIR"); fi
 [ -n "$REPLAY" ] && ARGS+=(-replay "$REPLAY")
 "$SCRATCH/abmon" "${ARGS[@]}"
 exit $?
